@@ -934,6 +934,14 @@ def regenerate():
             continue
         if write_if_changed(os.path.join(LEAN_GEN, fname), text):
             changed.append(fname)
+    try:                         # the effect-IR translation of the analysis modules (C15 / C14)
+        import efftrans
+        r = efftrans.regenerate()
+        S.status['effects.translation'] = ('translated %d functions (%d statements); impure: %s; two unrollings reach the alias fixpoint: %s; constructs outside the grammar: %s'
+                                           % (r['functions'], r['statements'], r['impure'] or 'none', r['unroll_stable'], r['unknown'] or 'none'))
+        changed += r['rewritten']
+    except Exception as e:
+        S.status['effects.translation'] = 'translator failed (%s: %s); previous files kept' % (type(e).__name__, e)
     S.status['_files_rewritten'] = changed
     return S.status
 
